@@ -236,6 +236,25 @@ func firewallPart(c *vk.Ctx) {
 						"multi-last":    chatBody([]map[string]string{{"role": "user", "content": "hello @1"}, {"role": "assistant", "content": "hi"}, {"role": "user", "content": p.text}}, false),
 						"multi-earlier": chatBody([]map[string]string{{"role": "user", "content": p.text}, {"role": "assistant", "content": "hi"}, {"role": "user", "content": "what is the weather @1"}}, false),
 						"streaming":     chatBody(userMsg(p.text), true),
+						// the latest user message followed by turns that are not the user's (assistant prefill,
+						// assistant tool call + tool result): it still is the latest user message
+						"assistant-after": chatBody([]map[string]string{{"role": "user", "content": p.text}, {"role": "assistant", "content": "Sure, "}}, false),
+						"tool-after":      chatBody([]map[string]string{{"role": "system", "content": "be brief"}, {"role": "user", "content": p.text}, {"role": "assistant", "content": ""}, {"role": "tool", "content": "42"}}, false),
+						// content given as a list of parts (the multimodal form of the same chat API)
+						"parts": func() string {
+							b, _ := json.Marshal(map[string]any{"model": "m", "messages": []any{map[string]any{"role": "user", "content": []any{map[string]any{"type": "text", "text": p.text}}}}})
+							return string(b)
+						}(),
+						// a chat body that also carries a `prompt` field (empty, or harmless): the upstream
+						// chat model answers to the messages
+						"messages+empty-prompt": func() string {
+							b, _ := json.Marshal(map[string]any{"model": "m", "prompt": "", "messages": userMsg(p.text)})
+							return string(b)
+						}(),
+						"messages+benign-prompt": func() string {
+							b, _ := json.Marshal(map[string]any{"model": "m", "prompt": "what is the weather @1", "messages": userMsg(p.text)})
+							return string(b)
+						}(),
 					}
 					names := []string{}
 					for k := range shapes {
